@@ -36,6 +36,9 @@ QU = 4  # stored exponent units per 1
 EXPLIMIT = 1 << (FIELD - 1)
 
 
+import time as _time
+
+
 class Undecided(Exception):
     """The engine cannot decide / represent something.  Never a violation."""
 
@@ -240,10 +243,15 @@ def p_scale(a, k):
     return {m: c * k for m, c in a.items()}
 
 
+DEADLINE = [None]  # wall-clock limit for the normal-form computation of ONE comparison (set by the runner)
+
+
 def p_mul(a, b):
     C = CTX
     if not a or not b:
         return {}
+    if DEADLINE[0] is not None and len(a) * len(b) > 64 and _time.time() > DEADLINE[0]:
+        raise Undecided("bringing the two values over a common denominator exceeds the time budget of one comparison")
     if len(a) < len(b):
         a, b = b, a
     r = {}
